@@ -113,6 +113,8 @@ class Taint:
                     continue
                 if fields and self._field_is_buf_or_wrapper(b, x[1], fields):
                     continue
+                if fields and b.kind == "Closure" and x[1] == 1 and self._upvar_is_buf_or_wrapper(b, fields[0]):
+                    continue
                 if fields and self._clean_string_field(b, x[1], fields):
                     continue
                 if self._peel(aty) in INT_TYPES:
@@ -148,6 +150,29 @@ class Taint:
                 continue
             bad.append(x)
         return bad, params
+
+    def _upvar_is_buf_or_wrapper(self, b, name):
+        """a captured variable of a closure whose type is the output buffer or a clean wrapper (read off the places that mention it)"""
+        for i in b.live_blocks():
+            for st in b.stmts(i):
+                if st["k"] != "assign":
+                    continue
+                pls = [st["lhs"]]
+                rv = st["rv"]
+                if isinstance(rv.get("place"), dict):
+                    pls.append(rv["place"])
+                for k_ in ("op", "a", "b"):
+                    o_ = rv.get(k_)
+                    if isinstance(o_, dict) and (o_.get("copy") or o_.get("move")):
+                        pls.append(o_.get("copy") or o_.get("move"))
+                for pl in pls:
+                    if pl.get("l") == 1:
+                        for e in pl.get("p", []):
+                            if e[0] == "f" and e[2] == name and len(e) > 4:
+                                ty = e[4]
+                                if "PrefixedStringBuf" in ty or any(w in ty for w in self.wrappers):
+                                    return True
+        return False
 
     def _field_is_buf_or_wrapper(self, b, argl, fields):
         # type of the field path: look it up through ADT tables
